@@ -211,6 +211,7 @@ type c17Tx struct {
 	grantLine int
 	grantL    int
 	lastCallL int
+	lastOkL   int // noted time of the last data call on it that was served (it certainly counted as activity)
 	brackets  [][2]int // [note, end] of the Begin and of every later call on it (real ms)
 	writes    [][2]int // acknowledged puts (k,v) / deletes (k,-1) in order
 	finished  string   // "" | commit | rollback | fail
@@ -571,10 +572,13 @@ func (v *c17Env) quiesce() {
 			v.stuck = true
 			return
 		}
-		if spin < 50 {
+		switch {
+		case spin < 4:
 			runtime.Gosched()
-		} else {
+		case spin < 40:
 			time.Sleep(50 * time.Microsecond)
+		default:
+			time.Sleep(500 * time.Microsecond)
 		}
 	}
 }
@@ -591,6 +595,7 @@ func (v *c17Env) completed(cl *c17Call) {
 		t.id = cl.id
 		t.grantL = v.nowMs()
 		t.lastCallL = t.grantL
+		t.lastOkL = t.beginL
 		if o, ok := v.reg.Get(cl.id); ok {
 			t.obj = o
 		}
@@ -868,6 +873,9 @@ func (v *c17Env) afterOp(c int, t *c17Tx, what string, k, val int, res, gv strin
 	v.noteResult(t, what, res)
 	t.lastCallL = v.nowMs()
 	t.brackets = append(t.brackets, [2]int{v.lnow, t.lastCallL})
+	if wasLive && (res == "ok" || res == "notfound") && (what == "get" || what == "put" || what == "del") {
+		t.lastOkL = v.lnow
+	}
 	if wasLive {
 		switch what {
 		case "put":
@@ -918,6 +926,7 @@ func (v *c17Env) afterOp(c int, t *c17Tx, what string, k, val int, res, gv strin
 // limits are counted from the latest instant compatible with it — the grant, the client's last
 // call of any kind)
 func (v *c17Env) oracleStale(why string) {
+	end := v.nowMs()
 	for _, t := range v.txs {
 		if !t.live() || t.removed {
 			continue
@@ -925,6 +934,16 @@ func (v *c17Env) oracleStale(why string) {
 		ttl := v.ttlrw
 		if t.ro {
 			ttl = v.ttlro
+		}
+		// ... and must not end a transaction that is clearly within both limits (counted from the
+		// earliest instants compatible with the text: the Begin request, the last served call)
+		if t.grantLine < v.lineNo && end-t.beginL < ttl*v.scale-2 && end-t.lastOkL < v.idle*v.scale-2 {
+			if _, ok := v.reg.Get(t.id); !ok {
+				v.fail("transaction of client %d (age %d ms, last served call %d ms ago; limits %d/%d ms) was ended by the %s",
+					t.client, end-t.beginL, end-t.lastOkL, ttl*v.scale, v.idle*v.scale, why)
+				t.seenDead = true
+				continue
+			}
 		}
 		if v.lnow-t.grantL > ttl*v.scale {
 			t.mustDead = "lifetime limit passed at " + why
@@ -1328,10 +1347,146 @@ func c17WarmUp() {
 	}
 }
 
+// kind=race: the hand-off race of RegistryImpl.Begin. A writer holds the lock, a second Begin
+// waits with a deadline, and the holder commits within a few hundred microseconds of that deadline
+// (the offset sweeps over the rounds). Whichever way each round goes — the waiter gets its
+// transaction, or it times out while its goroutine is being handed the lock — afterwards the lock
+// must be free, the registry empty and the manager's counters balanced. Not compared with the
+// model (it prints the same single line); the outcome mix is reported in META.
 func runC17Race(c *Case, out func(string)) {
+	c17WarmUp()
+	rounds, _ := strconv.Atoi(hdrVal(c.Hdr, "rounds", "150"))
+	v, err := c17Start(c, 1)
+	if err != nil {
+		out("IMPL-ERROR " + err.Error())
+		return
+	}
+	defer v.stop()
+	nOk, nTimeout, nOrphan := 0, 0, 0
+	fail := ""
+	call := func(ctx context.Context, ro bool) (string, error) {
+		if v.svc {
+			r, err := v.cli.BeginTransaction(v.ctxFor(1, ctx), &pb.BeginTransactionRequest{ReadOnly: ro})
+			if err != nil {
+				return "", err
+			}
+			return r.TransactionId, nil
+		}
+		return v.reg.Begin(ctx, v.weng, ro)
+	}
+	finish := func(id string) error {
+		tx, ok := v.reg.Get(id)
+		if !ok {
+			return errors.New("transaction not found")
+		}
+		err := tx.Commit()
+		v.reg.Remove(id)
+		return err
+	}
+	for i := 0; i < rounds && fail == ""; i++ {
+		var id1 string
+		var err error
+		for try := 0; try < 4; try++ {
+			hctx, hcancel := context.WithTimeout(context.Background(), time.Second)
+			id1, err = call(hctx, false)
+			hcancel()
+			if err == nil || !v.svc {
+				break
+			}
+			// through the service a request whose client has given up can still be served later and
+			// leave a registered transaction nobody knows: an abandoned transaction, which the server
+			// ends once it has been idle for too long
+			nOrphan++
+			v.calls = nil
+			time.Sleep(time.Duration(v.idle+60) * time.Millisecond)
+			v.reg.CleanupStaleTransactions()
+			v.quiesce()
+		}
+		if err != nil {
+			fail = fmt.Sprintf("round %d: the holder cannot begin: %v", i, err)
+			break
+		}
+		dl := time.Now().Add(4 * time.Millisecond)
+		ctx, cancel := context.WithDeadline(context.Background(), dl)
+		type res struct {
+			id  string
+			err error
+		}
+		done := make(chan res, 1)
+		go func() { id, err := call(ctx, i%3 == 2); done <- res{id, err} }()
+		// commit at deadline + offset, offset in [-100us, +300us): where the timer of the waiting
+		// call and the goroutine that is handed the lock actually meet
+		off := time.Duration((i*37)%400-100) * time.Microsecond
+		for time.Until(dl.Add(off)) > 0 {
+			runtime.Gosched()
+		}
+		if err := finish(id1); err != nil {
+			fail = fmt.Sprintf("round %d: the holder cannot commit: %v", i, err)
+		}
+		var r res
+		select {
+		case r = <-done:
+		case <-time.After(5 * time.Second):
+			fail = fmt.Sprintf("round %d: the waiting Begin neither got the lock nor timed out", i)
+		}
+		cancel()
+		if fail != "" {
+			break
+		}
+		if r.err == nil {
+			nOk++
+			if err := finish(r.id); err != nil {
+				fail = fmt.Sprintf("round %d: the transaction the waiter was given cannot commit: %v", i, err)
+			}
+		} else {
+			nTimeout++
+		}
+		// everything comes to rest; then nothing may be left
+		v.calls = nil
+		v.quiesce()
+		if v.svc {
+			for k := 0; k < 2000 && v.inBeg.Load() != 0; k++ {
+				time.Sleep(100 * time.Microsecond)
+			}
+			v.quiesce()
+		}
+		v.nBegun += 2
+		left := func() string {
+			if ls := v.lockState(); ls != "free" {
+				return fmt.Sprintf("the lock is left in state %q", ls)
+			} else if n := v.regSize(); n != 0 {
+				return fmt.Sprintf("%d transactions left in the registry", n)
+			} else if a, _ := v.tm.GetTransactionStats()["tx_active"].(uint64); a != 0 {
+				return fmt.Sprintf("the manager counts %d active transactions", a)
+			}
+			return ""
+		}
+		l := left()
+		if l != "" && v.svc && r.err != nil {
+			// the client gave up (its own deadline) while the server was creating the transaction, or
+			// the server served the request after the client had gone: an abandoned transaction, which
+			// the server must end once it has been idle for too long
+			nOrphan++
+			time.Sleep(time.Duration(v.idle+60) * time.Millisecond)
+			v.reg.CleanupStaleTransactions()
+			v.quiesce()
+			l = left()
+		}
+		if l != "" {
+			fail = fmt.Sprintf("round %d (waiter: %s, commit %v after the deadline): %s", i, c17Class(r.err), off, l)
+		}
+	}
 	out("X race")
-	out("ORACLE ok")
-	out("META nontrivial=0")
+	if fail != "" {
+		out("ORACLE FAIL " + fail)
+	} else {
+		out("ORACLE ok")
+	}
+	nt := 0
+	if nOk > 0 && nTimeout > 0 {
+		nt = 1
+	}
+	out(fmt.Sprintf("META kind=race rounds=%d waiter_ok=%d waiter_timeout=%d orphaned_then_cleaned=%d svc=%v nontrivial=%d", rounds, nOk, nTimeout, nOrphan, v.svc, nt))
 }
 
 // ---------------------------------------------------------------------------------------
@@ -1340,8 +1495,22 @@ func runC17Race(c *Case, out func(string)) {
 
 func genC17(w *bufio.Writer, seed int64, n int, tier string) {
 	r := rand.New(rand.NewSource(seed*7919 + 17))
+	// two racing scenarios per run (registry alone, through the service)
+	rounds := 150
+	if tier == "thorough" {
+		rounds = 1500
+	}
+	if n >= 10 {
+		fmt.Fprintf(w, "case r%d-0 kind=race svc=0 peer=1 wiring=ttl rounds=%d\nend\n", seed, rounds)
+		fmt.Fprintf(w, "case r%d-1 kind=race svc=1 peer=0 wiring=facade rounds=%d\nend\n", seed, rounds)
+		n -= 2
+	}
 	for i := 0; i < n; i++ {
 		g := newG17(r, i)
+		g.slow = tier == "thorough" && r.Intn(100) < 3
+		if g.slow && g.ncl < 2 {
+			g.ncl = 2
+		}
 		g.program()
 		fmt.Fprintf(w, "case g%d-%d %s\n", seed, i, g.header())
 		for _, l := range g.lines {
